@@ -244,6 +244,33 @@ def _float_wild_equal(a, b):
     return True
 
 
+_FLOATBITS = re.compile(r'd(\d{15,20})')
+_LONGDEC = re.compile(r'(3[0-9]|2e){17,}')        # a decimal literal with more than 15 digits, hex-encoded
+
+
+def _float_ulp_equal(a, b, line):
+    """decimal literals with more than 15 significant digits are converted by serde_json's fast path, which
+    may be one ulp away from correct rounding (documented limit of the model): accept a 1-ulp difference"""
+    if not _LONGDEC.search(line):
+        return False
+    fa, fb = _FLOATBITS.findall(a), _FLOATBITS.findall(b)
+    if len(fa) != len(fb) or _FLOATBITS.sub('d#', a) != _FLOATBITS.sub('d#', b):
+        return False
+    return all(abs(int(u) - int(v)) <= 1 for u, v in zip(fa, fb))
+
+
+_TWO_HASH = re.compile(r'(3d[0-9a-f]*?20[0-9a-f]*?3d)')       # "=" ... " " ... "=" inside a hex-encoded template
+
+
+def _hash_err_equal(a, b, line):
+    """two hash arguments of one tag both fail: which error is reported follows HashMap order (finding F12);
+    same reason and same position, different payload"""
+    pa, pb = a.split(':'), b.split(':')
+    if len(pa) != len(pb) or pa[:3] != pb[:3] or pa[1] != 'err' or not _TWO_HASH.search(line):
+        return False
+    return pa[4:7] == pb[4:7] and pa[7:] == pb[7:]
+
+
 def obs_equal(m, i, line=''):
     """model observation list vs implementation observation list (strings)"""
     if m is None or i is None:
@@ -261,6 +288,8 @@ def obs_equal(m, i, line=''):
         if len(_HASH_SUBEXPR.findall(line)) >= 2 and _log_perm_equal(a, b):
             continue
         if _float_wild_equal(a, b):
+            continue
+        if _float_ulp_equal(a, b, line) or _hash_err_equal(a, b, line):
             continue
         return False
     return True
